@@ -551,8 +551,17 @@ def _adaptive_history(ctx, viol, world, rng, i):
     cfgd = {"window_s": window, "target_success": target, "min_multiplier": mn, "max_multiplier": mxm, "fallback_shape": shape}
     hist = []
     ctx.cnt["fallback_shape:" + shape] += 1
+    # a fallback that builds on the previous delay (decorrelated jitter does): its value is its value FOR THE CONTEXT adaptive() was
+    # called with - the engine's prev_sleep_s is the delay applied last time, i.e. adaptive()'s own previous answer
+    dep = shape == "ctx-lambda" and i % 3 == 0
+    prev_r = [None]
+    cfgd["fallback_uses_prev_sleep_s"] = dep
     try:
-        st = adaptive(mk_fallback(shape, lambda: fbv[0]), window_s=window, target_success=target, min_multiplier=mn, max_multiplier=mxm)
+        if dep:
+            st = adaptive(lambda c: fbv[0] + (c.prev_sleep_s or 0.0), window_s=window, target_success=target, min_multiplier=mn, max_multiplier=mxm)
+            ctx.cnt["adaptive_histories_with_a_prev_dependent_fallback"] += 1
+        else:
+            st = adaptive(mk_fallback(shape, lambda: fbv[0]), window_s=window, target_success=target, min_multiplier=mn, max_multiplier=mxm)
     except BaseException as x:  # noqa: BLE001
         viol("strategy-raised:" + type(x).__name__, f"adaptive(<{shape} fallback>) raised {type(x).__name__}: {x}; {cfgd}", {"cfg": cfgd, "history": hist})
         return
@@ -581,16 +590,18 @@ def _adaptive_history(ctx, viol, world, rng, i):
                 world.t += d
                 hist.append(["adv", d])
             else:
-                fbv[0] = rng.choice([0.0, 1.0 / 64, 0.25, 1.0, 7.0, 1e3, 1e300, 10**400])
+                fbv[0] = rng.choice([0.0, 1.0 / 64, 0.25, 1.0, 7.0, 1e3, 1e300, 10**400]) if not dep else rng.choice([0.0, 1.0 / 64, 0.25, 1.0, 7.0])
                 # what the strategy is told about the remaining deadline changes nothing: adaptive() scales, the engine clamps
                 rem_told = rng.choice([None, None, 1e-9, 0.5, 3.0, 60.0])
-                ctxo = BackoffContext(attempt=rng.choice([1, 2, 7]), classification=Classification(klass=K), prev_sleep_s=None, remaining_s=rem_told, cause="exception")
+                pv = prev_r[0] if dep and isinstance(prev_r[0], float) and prev_r[0] < 1e6 else None
+                ctxo = BackoffContext(attempt=rng.choice([1, 2, 7]) if pv is None else rng.choice([2, 3, 7]), classification=Classification(klass=K), prev_sleep_s=pv, remaining_s=rem_told, cause="exception")
                 if rem_told is not None:
                     ctx.cnt["adaptive_calls_with_a_remaining_deadline"] += 1
                 r = st(ctxo)
                 ctx.cnt["eval:adaptive"] += 1
                 ctx.cnt["evaluations"] += 1
-                f = fbv[0]
+                f = fbv[0] + (pv or 0.0) if dep else fbv[0]
+                prev_r[0] = r
                 if isinstance(f, int) and f > 2**1000:
                     # a fallback value no float can hold: adaptive() answers (the engine caps it), and not with less than the fallback
                     hist.append(["call", "<int beyond float range>", "<int>" if isinstance(r, int) else r])
